@@ -45,7 +45,7 @@ def main(tier):
         if dtype == "bfloat16" and w == "qint8" and a is None and spec["t"] == "linear" and spec["in"] % 4 == 0 and spec["in"] % 16 != 0:
             spec["in"] = 16 * (spec["in"] // 16 + 1)  # F14 (C07): interpreter crash in torch._weight_int8pack_mm
         modules.append({"seed": ck.seed * 1000 + 5000 + i, "dtype": dtype, "weights": w, "activations": a, "frozen": rng.random() < 0.3, "variant": rng.randint(0, 11),
-                        "layout": rng.choice(["contig", "contig", "permuted", "expanded"]), "updates": rng.randint(0, 2), "update_via": rng.choice(["data", "inplace"]), "spec": spec})
+                        "layout": rng.choice(["contig", "contig", "permuted", "expanded"]), "updates": rng.randint(0, 2), "update_via": rng.choice(["data", "inplace", "assign_data", "state_dict"]), "warm_no_grad": rng.random() < 0.4, "in_calibration": rng.random() < 0.3, "spec": spec})
     res = ck.impl("grad", {"exact": exact, "modules": modules}, timeout=3300)
     if "crashed" in res:
         ck.violation("implementation worker crashed: " + res.get("stderr", "")[-300:], {"stderr": res.get("stderr")})
@@ -95,6 +95,10 @@ def main(tier):
             if "exn" in st:
                 ck.violation(f"{tag}: backward raised {st['exn']}: {st['msg'][:140]}", ctx)
                 break
+            if c.get("in_calibration") and c["activations"] is not None:
+                tag += " [forward inside a Calibration context]"
+            if st.get("grads_alias_upstream"):
+                ck.violation(f"{tag}: the gradient(s) {st['grads_alias_upstream']} handed back share storage with the upstream gradient (overwriting that buffer afterwards changed them)", ctx)
             if st["x_grad"] is None or not st["x_grad_shape_ok"]:
                 ck.violation(f"{tag}: no gradient (or a gradient of the wrong shape) reaches the input", ctx)
             elif st["x_grad"] > 1:
